@@ -13,6 +13,10 @@ definitions (structural recursion; the two `while` loops carry fuel, shown never
 import WzVerif.Lemmas.HttpSafeKeys
 import WzVerif.Lemmas.HttpTermEtag
 import WzVerif.Lemmas.RequestAttrs
+import WzVerif.Lemmas.RequestBody
+import WzVerif.Gen.RequestSurface
+import WzVerif.Gen.Regexes
+import WzVerif.Gen.DateExc
 namespace Wz.Props.C07
 open Wz Wz.Http
 
@@ -145,6 +149,13 @@ theorem headerProperty_needs_caught_class :
     headerProperty (fun _ => (.error "OverflowError" : Except String Nat)) 0 (some []) = .error "OverflowError" := by
   decide
 
+/-- a `header_property` / `environ_property` *without* load function (`content_type`, `referrer`,
+`origin`, `content_md5`, `content_encoding`, `access_control_request_method`, `remote_user`, ...)
+returns the raw text or the default: the kind `…:raw` of the generated surface table -/
+theorem request_raw_property_total_safe (dflt : Str) (hdr : Option Str) :
+    Safe (headerProperty (fun v => (.ok v : Except String Str)) dflt hdr) :=
+  headerProperty_safe _ _ _ (fun v e he => by simp at he)
+
 /-- `Request.max_forwards`, `Request.content_length` (`get_content_length`: `max(0, _plain_int(...))`
 inside `try`), `Request.access_control_request_headers` return a value for every header text. -/
 theorem request_scalar_attrs_total_safe (a b : Option Str) :
@@ -201,18 +212,243 @@ theorem accept_use_never_raises_on_wellformed_offers (self : List (Wz.Accept.Str
 
 example : Wz.Accept.mimeOfferInvalid "text/html".toList = false := by decide
 
+/-! ### the body-parsing attributes: `form`, `files`, `values`, `data`, `get_data()`, `json`,
+`get_json(silent=True)`, `stream` (Model/RequestBody.lean) -/
+
+/-- The glue the body attributes run through is the one the model was written for (collected from the
+AST of formparser.py / wrappers/request.py on every run): `FormDataParser.parse` dispatches on exactly
+these two mimetypes and catches exactly `ValueError`; the only codec names that reach
+`bytes.decode` / `str.encode` are literals, the defaults, or `get_part_charset`'s result; `parse_qsl`
+gets no `encoding=`; `get_part_charset` returns `"utf-8"` or a member of its four-element safe list;
+`get_json` catches exactly `ValueError`. A client-chosen codec name reaching `decode` — what makes
+`LookupError` possible — changes one of these rows. -/
+theorem request_glue_pinned :
+    Gen.RequestGlue.parseMimetypes = ["multipart/form-data", "application/x-www-form-urlencoded"] ∧
+    Gen.RequestGlue.parseCaught = ["ValueError"] ∧
+    Gen.RequestGlue.codecSites =
+      [("formparser:FormDataParser._parse_multipart", "encode", "'ascii'"),
+       ("formparser:FormDataParser._parse_urlencoded", "decode", ""),
+       ("formparser:MultiPartParser.parse", "decode", "self.get_part_charset(current_part.headers), 'replace'"),
+       ("wrappers.request:Request.__init__", "encode", "'latin1'"),
+       ("wrappers.request:Request.get_data", "decode", "errors='replace'")] ∧
+    Gen.RequestGlue.parseQslArgs =
+      [("<positional>", "data.decode()"), ("keep_blank_values", "True"), ("errors", "'werkzeug.url_quote'")] ∧
+    Gen.RequestGlue.partCharsets = [["ascii", "iso-8859-1", "us-ascii", "utf-8"]] ∧
+    Gen.RequestGlue.partCharsetReturns = ["'utf-8'", "ct_charset"] ∧
+    Gen.RequestGlue.jsonCaught = ["ValueError"] := by
+  decide
+
+/-- the subclass facts the argument rests on, from the live classes: the codec errors of strict
+decoding / ASCII encoding *are* ValueErrors (so the silent fallback swallows them), an unknown codec
+name (`LookupError`) and a too deeply nested document (`RecursionError`) are *not*; the four exceptions
+the glue raises itself are HTTP exceptions -/
+theorem exception_vocabulary :
+    Wz.Req.isValueError "UnicodeDecodeError" = true ∧ Wz.Req.isValueError "UnicodeEncodeError" = true ∧
+    Wz.Req.isValueError "json.JSONDecodeError" = true ∧ Wz.Req.isValueError "binascii.Error" = true ∧
+    Wz.Req.isValueError "LookupError" = false ∧ Wz.Req.isValueError "RecursionError" = false ∧
+    Wz.Req.isValueError "KeyError" = false ∧ Wz.Req.isValueError "IndexError" = false ∧
+    Wz.Req.isValueError "TypeError" = false ∧ Wz.Req.isValueError "AttributeError" = false ∧
+    Wz.Req.isHttpExc "RequestEntityTooLarge" = true ∧ Wz.Req.isHttpExc "ClientDisconnected" = true ∧
+    Wz.Req.isHttpExc "BadRequest" = true ∧ Wz.Req.isHttpExc "UnsupportedMediaType" = true ∧
+    Wz.Req.isHttpExc "SecurityError" = true ∧ Wz.Req.isHttpExc "ValueError" = false ∧
+    Wz.Req.isHttpExc "LookupError" = false := by
+  decide
+
+/-- the exception is one of werkzeug's HTTP exceptions -/
+abbrev Http := Wz.Req.Http
+/-- hypothesis on the multipart parser (C01/C02/C10's): it raises ValueError (subclasses) or an HTTP
+exception (413, client disconnect) only -/
+abbrev MultipartRaisesOnly := Wz.Req.MultipartRaisesOnly
+/-- hypothesis on `json.loads`: ValueError (JSONDecodeError, UnicodeDecodeError) only -/
+abbrev JsonRaisesOnly := Wz.Req.JsonRaisesOnly
+
+/-- **`request_body_attr_total_safe`** — for every environ (Content-Type, Content-Length,
+Transfer-Encoding arbitrary text; query string latin-1), every request method, every limit
+configuration, every body the input stream delivers (complete or cut short) and each of
+`form, files, values, data, get_data(), json, get_json(silent=True), stream, want_form_data_parsed`:
+the first access returns a value or raises an HTTP exception (413 `RequestEntityTooLarge`, 400
+`ClientDisconnected` / `BadRequest`, 415 `UnsupportedMediaType`). Content: the `except ValueError`
+fallback of `FormDataParser.parse` swallows every error of the boundary encoding, of strict body
+decoding and of the multipart parser; `parse_options_header` / `get_content_length` are total (above);
+the urlencoded reader raises only 413; `get_json` turns ValueError into 400. -/
+theorem request_body_attr_total_safe (bx : Wz.Req.BodyExt) (hmp : MultipartRaisesOnly bx) (hjl : JsonRaisesOnly bx)
+    (cfg : Wz.Req.BodyCfg) (e : Wz.Req.Env) (method : Str) (w : Wz.Req.Wire) (a : Wz.Req.BodyAttr)
+    (h : Latin1 e.queryString = true) :
+    Wz.Req.bodyOutcome bx cfg e method w a = .ok () ∨
+      ∃ x, Wz.Req.bodyOutcome bx cfg e method w a = .error x ∧ Http x := by
+  have := Wz.Req.bodyOutcome_raises bx hmp hjl cfg e method w a h
+  cases ho : Wz.Req.bodyOutcome bx cfg e method w a with
+  | ok u => left; rfl
+  | error x => right; exact ⟨x, rfl, this x ho⟩
+
+/-- the hypotheses are satisfiable (a multipart parser that refuses everything with ValueError, a JSON
+parser that accepts everything) -/
+example : MultipartRaisesOnly ⟨fun _ _ _ => .error "ValueError", fun _ => .ok ()⟩ ∧
+    JsonRaisesOnly ⟨fun _ _ _ => .error "ValueError", fun _ => .ok ()⟩ :=
+  ⟨fun _ _ _ e h => by cases h; left; decide, fun _ e h => by cases h⟩
+
+/-- the hypothesis on the parsers is needed, and is exactly what a client-chosen codec name violates:
+a body parser that lets `LookupError` out makes `Request.form` raise it (it is not a ValueError, so
+the silent fallback does not apply) -/
+theorem request_form_needs_value_errors_only :
+    Wz.Req.bodyOutcome ⟨fun _ _ _ => .error "LookupError", fun _ => .ok ()⟩ {}
+      { contentType := some "multipart/form-data; boundary=x".toList, contentLength := some "0".toList }
+      "POST".toList {} .form = .error "LookupError" := by decide +kernel
+
+/-- while every ValueError — here the strict decoding of a urlencoded body that is not UTF-8 — ends
+in an empty form -/
+theorem request_form_invalid_utf8_is_empty :
+    Wz.Req.formValue ⟨fun _ _ _ => .error "ValueError", fun _ => .ok ()⟩ {}
+      { contentType := some "application/x-www-form-urlencoded; charset=bogus".toList, contentLength := some "3".toList }
+      { body := [0x61, 0x3d, 0xff] } = .ok {} := by decide +kernel
+
+/-- the same for `json`: ValueError becomes 400, anything else `json.loads` raises escapes — as
+CPython's does for a body of a few thousand `[` (RecursionError; the body is outside this property's
+quantifier, recorded as an observation in the harness) -/
+theorem request_json_needs_value_errors_only :
+    Wz.Req.bodyOutcome ⟨fun _ _ _ => .error "ValueError", fun _ => .error "RecursionError"⟩ {}
+      { contentType := some "application/json".toList, contentLength := some "1".toList }
+      "POST".toList { body := [0x5b] } .json = .error "RecursionError"
+    ∧ Wz.Req.bodyOutcome ⟨fun _ _ _ => .error "ValueError", fun _ => .error "json.JSONDecodeError"⟩ {}
+      { contentType := some "application/json".toList, contentLength := some "1".toList }
+      "POST".toList { body := [0x5b] } .json = .error "BadRequest" := by decide +kernel
+
+/-! ### `parse_date`: the exception behaviour of `email.utils.parsedate_to_datetime` -/
+
+/-- `parse_date(value)` around a raw date parser: `except (TypeError, ValueError, OverflowError): return None`
+(the caught classes are read from the source) -/
+def parseDateWith (raw : Str → Except String (Option Nat)) (v : Str) : Except String (Option Nat) :=
+  Wz.Req.tryExcept Gen.DateExc.parseDateCaught (raw v) none
+
+/-- every exception class `email.utils.parsedate_to_datetime` raised over the generated boundary
+family (≈ 41 000 date-shaped texts: every day × month × year × time × zone at and beyond the ends of
+their ranges, re-evaluated on every run) is caught by `parse_date` ... -/
+theorem parseDate_catches_observed :
+    Gen.DateExc.raised.all (fun r => Wz.Req.caughtBy Gen.DateExc.parseDateCaught r.1) = true ∧
+    Gen.DateExc.parseDateCaught = ["TypeError", "ValueError", "OverflowError"] := by decide
+
+/-- ... hence `parse_date` returns a value for every text, for any raw parser that raises only the
+observed classes (or any other subclass of ValueError). What reverting repair c7e3c04 (F07f) exposes:
+without `OverflowError` in the list the obligation above fails on its recorded witness. -/
+theorem parseDate_total_safe (raw : Str → Except String (Option Nat))
+    (h : ∀ v e, raw v = .error e → e = "TypeError" ∨ e = "OverflowError" ∨ Wz.Req.isValueError e = true) (v : Str) :
+    Safe (parseDateWith raw v) := by
+  unfold parseDateWith Wz.Req.tryExcept
+  cases hr : raw v with
+  | ok a => exact ⟨a, rfl⟩
+  | error e =>
+    have hc : Wz.Req.caughtBy Gen.DateExc.parseDateCaught e = true := by
+      rw [parseDate_catches_observed.2]
+      rcases h v e hr with rfl | rfl | hv
+      · decide
+      · decide
+      · simp [Wz.Req.caughtBy, hv]
+    simp only [hc, if_true]
+    exact ⟨none, rfl⟩
+
+example : ∀ (v : Str) (e : String), (fun _ => (.error "OverflowError" : Except String (Option Nat))) v = .error e →
+    e = "TypeError" ∨ e = "OverflowError" ∨ Wz.Req.isValueError e = true := by
+  intro v e h; cases h; right; left; rfl
+
+/-! ### coverage of the public surface (regenerated from the live classes on every run) -/
+
+/-- why a public name of `Request` is outside the two theorems above -/
+def excludedAttrs : List (String × String) :=
+  [ -- known finding F07d (Host → urlsplit ValueError)
+    ("url", "F07d"), ("base_url", "F07d"), ("host_url", "F07d"), ("root_url", "F07d"), ("url_root", "F07d"),
+    -- set by `__init__` from server-controlled or already decoded CGI variables (decoding: C15), no lazy parsing
+    ("environ", "init"), ("headers", "init"), ("method", "init"), ("scheme", "init"), ("server", "init"),
+    ("root_path", "init"), ("path", "init"), ("query_string", "init"), ("remote_addr", "init"), ("shallow", "init"),
+    -- total string formatting of those (`full_path` decodes the query string with the same total decoder as `args`)
+    ("is_secure", "format"), ("script_root", "format"), ("full_path", "format"),
+    -- stores the raw header text in an object
+    ("user_agent", "raw-object"),
+    -- configuration, class attributes, methods that parse nothing by themselves
+    ("application", "config"), ("close", "config"), ("dict_storage_class", "config"), ("form_data_parser_class", "config"),
+    ("from_values", "config"), ("json_module", "config"), ("list_storage_class", "config"), ("make_form_data_parser", "config"),
+    ("max_content_length", "config"), ("max_form_memory_size", "config"), ("max_form_parts", "config"),
+    ("on_json_loading_failed", "config"), ("parameter_storage_class", "config"), ("trusted_hosts", "config"),
+    ("user_agent_class", "config") ]
+
+/-- a public name of a live `Request` is covered: by `request_attr_total_safe` (its `Attr`), by
+`request_body_attr_total_safe` (its `BodyAttr`), by `headerProperty_total_safe` with the identity
+loader (a `header_property` / `environ_property` without load function), or listed in `excludedAttrs` -/
+def attrCovered (row : String × String) : Bool :=
+  (Wz.Req.Attr.all.map Wz.Req.Attr.name).contains row.1 ||
+  (Wz.Req.BodyAttr.all.map Wz.Req.BodyAttr.name).contains row.1 ||
+  row.2.endsWith ":raw" ||
+  excludedAttrs.any (·.1 == row.1)
+
+/-- **every public attribute of `Request` is in a covered list or in the explicit exclusion list** —
+a property / cached_property added to `sansio.Request` or `wrappers.Request` shows up as an uncovered
+row and breaks this obligation (the hostile stream enumerates the same live list). -/
+theorem request_surface_covered : Gen.RequestSurface.requestAttrs.all attrCovered = true := by decide +kernel
+
+/-- the enumerations used above are complete -/
+theorem request_attr_enumerations (a : Wz.Req.Attr) (b : Wz.Req.BodyAttr) :
+    a ∈ Wz.Req.Attr.all ∧ b ∈ Wz.Req.BodyAttr.all := by
+  constructor
+  · cases a <;> decide
+  · cases b <;> decide
+
+/-- public functions of werkzeug.http / sansio.http / sansio.utils with a totality theorem in this file -/
+def modelledFunctions : List String :=
+  ["parse_options_header", "parse_dict_header", "parse_cache_control_header", "parse_accept_header", "parse_etags",
+   "parse_range_header", "parse_content_range_header", "parse_age", "parse_list_header", "parse_set_header",
+   "parse_csp_header", "unquote_etag", "unquote_header_value", "get_content_length", "get_host", "host_is_trusted",
+   "parse_if_range_header", "is_byte_range_valid"]
+/-- parsers modelled by another property and composed here, or Python's (stream `hostile` + oracle) -/
+def streamFunctions : List String :=
+  ["parse_cookie", "parse_date", "is_resource_modified", "get_current_url"]
+/-- serialisers and table predicates (application-side input, not parsers of client text) -/
+def serialiserFunctions : List String :=
+  ["dump_age", "dump_cookie", "dump_csp_header", "dump_header", "dump_options_header", "generate_etag", "http_date",
+   "quote_etag", "quote_header_value", "is_entity_header", "is_hop_by_hop_header", "remove_entity_headers",
+   "remove_hop_by_hop_headers"]
+
+/-- every public function of the HTTP utility layer is classified; every `from_header` class, Accept
+class and cache-control class is one the hostile stream instantiates -/
+theorem http_functions_covered :
+    Gen.RequestSurface.httpFunctions.all
+      (fun f => modelledFunctions.contains f.2 || streamFunctions.contains f.2 || serialiserFunctions.contains f.2) = true ∧
+    Gen.RequestSurface.fromHeaderClasses = ["Authorization", "WWWAuthenticate"] ∧
+    Gen.RequestSurface.acceptClasses = ["Accept", "CharsetAccept", "LanguageAccept", "MIMEAccept"] ∧
+    Gen.RequestSurface.cacheControlClasses = ["RequestCacheControl", "ResponseCacheControl"] := by decide +kernel
+
+/-! ### termination: where a hang can come from -/
+
+/-- regexes with an alternation or an unbounded repeat *inside* an unbounded repeat — the shapes
+super-linear backtracking needs — that have been examined: `_cookie_re`'s quoted-string branch
+`"(?:[^\\"]|\\.)*"` has disjoint alternatives (C13 models it; the repetition family of stream
+`hostile` times it on every run) -/
+def examinedRegexes : List (String × String) := [("werkzeug.sansio.http", "_cookie_re")]
+
+/-- every module-level compiled regex of the request-parsing modules (live objects, 20 at this
+commit) is free of nested unbounded quantifiers and of alternations under an unbounded quantifier,
+or is in the examined list; no function builds further patterns per call except the two multipart
+boundary patterns and `urls._make_unquote_part`. A new regex of either shape breaks this obligation;
+the stream times every listed regex on its own repetition family. -/
+theorem regexes_examined :
+    Gen.Regexes.table.all (fun r => (!r.2.2.2.1 && !r.2.2.2.2) || examinedRegexes.contains (r.1, r.2.1)) = true ∧
+    Gen.Regexes.localUses =
+      [("werkzeug.sansio.multipart:MultipartDecoder.__init__", "re.compile"),
+       ("werkzeug.sansio.multipart:MultipartDecoder.__init__", "re.compile"),
+       ("werkzeug.urls:_make_unquote_part", "re.compile")] := by decide +kernel
+
 /-
 -- OPEN (known finding F07d): `Request.url/base_url/host_url/root_url/url_root` pass the Host header
 --   through `urllib.parse.urlsplit(...).port/.hostname`, which raise ValueError for a non-numeric or
 --   out-of-range port and for unbalanced / invalid `[...]`. `urlsplit` is Python's and is not
---   modelled; these five attributes are the explicit exclusion of `request_attr_total_safe`; the
---   failing family is replayed on the real code by the harness on every run.
--- OPEN: `parse_date` wraps `email.utils.parsedate_to_datetime` in
---   `except (TypeError, ValueError, OverflowError)` (OverflowError since repair c7e3c04, former
---   finding F07f). `email.utils` is Python's: in `request_attr_total_safe` it is a parameter
---   (a total function); that it raises no other class is watched by the oracle of stream `hostile`.
--- OPEN: `form`, `files`, `data`, `json`, `values`, `stream` go through the body parsers (C01, C02, C10's
---   models) and are exercised on the real code by stream `hostile` only.
+--   modelled; these five attributes are the explicit exclusion of `request_attr_total_safe`
+--   (`excludedAttrs`); the failing family is replayed on the real code by the harness on every run.
+-- OPEN: `email.utils.parsedate_to_datetime` itself is Python's: `parseDate_total_safe` is relative to
+--   the exception classes observed over the regenerated boundary family (`parseDate_catches_observed`);
+--   that no other class occurs on other texts is watched by the oracle of stream `hostile`.
+-- OPEN: `MultipartRaisesOnly` / `JsonRaisesOnly` are hypotheses of `request_body_attr_total_safe`:
+--   C01/C02/C10's multipart model carries model-only error values (`UNMODELLED` for RFC 2231 part
+--   parameters) and `json.loads` is Python's (it does raise RecursionError on deep nesting — a body,
+--   outside this property's quantifier). Both are exercised on the real code by stream `hostile`
+--   (Content-Type x body family).
 -/
 
 end Wz.Props.C07
